@@ -40,6 +40,7 @@ type pseudoVersion struct {
 	baseVersion string
 	timestamp   time.Time
 	revision    string
+	prerelease  string // the part after "vX.Y.Z-": a pseudo-version is ordered like any other semver prerelease
 }
 
 // NewVersion creates a new Go module version from a string
@@ -122,6 +123,7 @@ func parsePseudoVersion(version string) (*struct {
 				baseVersion: fmt.Sprintf("v%d.0.0", major),
 				timestamp:   timestamp,
 				revision:    matches[3],
+				prerelease:  matches[2] + "-" + matches[3],
 			},
 		}, nil
 	}
@@ -147,6 +149,7 @@ func parsePseudoVersion(version string) (*struct {
 				baseVersion: fmt.Sprintf("v%d.%d.%d-%s", major, minor, patch, matches[4]),
 				timestamp:   timestamp,
 				revision:    matches[6],
+				prerelease:  matches[4] + ".0." + matches[5] + "-" + matches[6],
 			},
 		}, nil
 	}
@@ -172,6 +175,7 @@ func parsePseudoVersion(version string) (*struct {
 				baseVersion: fmt.Sprintf("v%d.%d.%d", major, minor, patch-1),
 				timestamp:   timestamp,
 				revision:    matches[5],
+				prerelease:  "0." + matches[4] + "-" + matches[5],
 			},
 		}, nil
 	}
@@ -192,27 +196,17 @@ func (v *Version) Compare(other *Version) int {
 		return compareInt(v.patch, other.patch)
 	}
 
-	// Handle pseudo-version comparison
-	if v.pseudo != nil && other.pseudo != nil {
-		return v.pseudo.timestamp.Compare(other.pseudo.timestamp)
-	}
-	if v.pseudo != nil && other.pseudo == nil {
-		// Pseudo-versions are pre-release, so they come before releases
-		if other.prerelease == "" {
-			return -1
-		}
-		// Compare with prerelease
-		return comparePrerelease("pseudo", other.prerelease)
-	}
-	if v.pseudo == nil && other.pseudo != nil {
-		if v.prerelease == "" {
-			return 1
-		}
-		return comparePrerelease(v.prerelease, "pseudo")
-	}
+	// A pseudo-version is a prerelease version and is ordered like one:
+	// its prerelease identifiers are the text after "vX.Y.Z-".
+	return comparePrerelease(v.prereleaseIdentifiers(), other.prereleaseIdentifiers())
+}
 
-	// Compare prerelease according to semver rules
-	return comparePrerelease(v.prerelease, other.prerelease)
+// prereleaseIdentifiers returns the prerelease part used for ordering
+func (v *Version) prereleaseIdentifiers() string {
+	if v.pseudo != nil {
+		return v.pseudo.prerelease
+	}
+	return v.prerelease
 }
 
 // String returns the string representation of the version
@@ -242,17 +236,6 @@ func comparePrerelease(a, b string) int {
 	}
 	if b == "" {
 		return -1
-	}
-
-	// Special handling for pseudo-versions
-	if a == "pseudo" && b != "pseudo" {
-		return -1
-	}
-	if a != "pseudo" && b == "pseudo" {
-		return 1
-	}
-	if a == "pseudo" && b == "pseudo" {
-		return 0
 	}
 
 	// Compare dot-separated identifiers according to semver rules
